@@ -1,6 +1,6 @@
 (* Props/C01.v — rawdb: every region reads back exactly its own bytes, across any history.
    Statements only.  FULL statement (target; proved parts are listed as theorems below): *)
-From Anydb Require Import Common.Base Gen.Consts Rawdb.AMap Rawdb.Alloc Rawdb.AllocSpec Rawdb.AllocInv Rawdb.AllocFacts.
+From Anydb Require Import Common.Base Gen.Consts Rawdb.AMap Rawdb.Alloc Rawdb.AllocSpec Rawdb.AllocInv Rawdb.AllocFacts Gen.Exprs Rawdb.ExprFacts.
 
 (* every step of the allocator model refines the per-name byte-vector reference, with the same
    result, from every state satisfying the extent invariant *)
@@ -25,3 +25,33 @@ Theorem C01_mem_copy_frame :
   forall m src dst n a, mem_copy m src dst n a = if (dst <=? a) && (a <? dst + n) then m (a - dst + src) else m a.
 Proof. exact mem_copy_spec. Qed.
 Print Assumptions C01_mem_copy_frame.
+
+(* the arithmetic of write_with / set_min_len / truncate in the model is the arithmetic of the
+   source (Gen/Exprs.v is re-translated from /repo on every run) *)
+Theorem C01_ceil_page_is_source : forall n, ceil_page n = x_ceil_page n.
+Proof. exact ceil_page_is_source. Qed.
+Print Assumptions C01_ceil_page_is_source.
+
+Theorem C01_set_min_len_is_source :
+  forall s n, file_len (set_min_len s n) =
+    if ceil_page n <=? file_len s then file_len s else x_grow_target (ceil_page n) (file_len s).
+Proof. exact set_min_len_is_source. Qed.
+Print Assumptions C01_set_min_len_is_source.
+
+Theorem C01_write_arith_is_source :
+  (forall ln n, x_new_len_append ln n = ln + n)
+  /\ (forall ln n a tr, x_new_len_at ln n a tr = if tr then a + n else N.max (a + n) ln)
+  /\ (forall start off, x_write_start start off = start + off)
+  /\ (forall nr r, x_added_reserve nr r = nr - r)
+  /\ (forall off ln tr, x_copy_len off ln tr = if tr then off else ln)
+  /\ (forall start nr, x_extend_target start nr = start + nr)
+  /\ (forall start r, x_adjacent_hole_start start r = start + r)
+  /\ (forall nl r, x_fits nl r = (nl <=? r))
+  /\ (forall a ln, x_write_refused a ln = (ln <? a))
+  /\ (forall f ln, x_truncate_noop f ln = (f =? ln))
+  /\ (forall f ln, x_truncate_refused f ln = (ln <? f))
+  /\ (forall e, x_create_min_len e = e + PAGE_SIZE)
+  /\ (forall k, x_min_regions_data k = k * PAGE_SIZE)
+  /\ (forall k, x_min_regions_meta k = k * SIZE_OF_REGION_METADATA).
+Proof. exact write_arith_is_source. Qed.
+Print Assumptions C01_write_arith_is_source.
